@@ -67,4 +67,19 @@ PROPS = {
         ],
         "assumptions": COMMON_ASSUME,
     },
+    "C08": {
+        "level_text": "Lean theorems C08_paused_no_update_delete, C08_frozen_nothing, C08_resume, C08_sync, C08_flags, C08_paused_not_promoted, C08_validate_overrides_pause, C08_pause_sources, C08_state, C08_canary_state for every counter state / annotation map / replica-set status, about the models of ManageDeployment, selectCurrentReplicaSet, nonCanaryState and manageStatus; canary-side clauses (no creation while paused or failed, resume on unpause incl. the zero-pod case) are proved in EdsProps/C06. Tied by the manage_deployment, manage_canary and select_current streams over every annotation value (absent, true, false, junk) and rollout state.",
+        "level_note": TB + "Modelled by hand: ManageDeployment, manageCanaryStatus, selectCurrentReplicaSet, manageStatus. Toggling histories across reconciles are covered by the scenario streams when registered.",
+        "streams": [("manage_deployment", 1500, 30000), ("manage_canary", 2500, 50000), ("select_current", 2000, 40000)],
+        "trusted_base": ["hand-written models of ManageDeployment / manageCanaryStatus / selectCurrentReplicaSet / manageStatus tied by three function streams"],
+        "assumptions": COMMON_ASSUME,
+    },
+    "C09": {
+        "level_text": "Lean theorems C09_ramp (the cap is min(maxParallelPodCreation, (1+floor(t/interval))*increase) for every positive interval and t >= 0, percentages rounding up), C09_ramp_ref, C09_create_bound, C09_sync_create_bound, C09_delete_bound, C09_start_time about the model; the real calculateMaxCreation is run at exact instants (slot boundary -1ns/0/+1ns, negative elapsed time, zero/negative interval) and ManageDeployment's create list is bounded against the reference formula on every case. The sync-spacing clause is checked on the real Reconcile by the ers_reconcile stream when registered.",
+        "level_note": TB + "Modelled by hand: calculateMaxCreation, getRollingUpdateStartTime, the create-list cap; limits.go is translated. Spacing of syncs (LastFullSync gate) is a property of Reconcile, covered at scenario level.",
+        "streams": [("max_creation", 3000, 60000), ("limits", 2000, 40000), ("manage_deployment", 1500, 30000)],
+        "trusted_base": ["Go's truncating Duration division = Int.tdiv; calculateMaxCreation model tied by the max_creation stream"],
+        "partial": ["C09_spacing (two write-issuing syncs are reconcileFrequency apart) is stated on the Reconcile model and not yet proved"],
+        "assumptions": COMMON_ASSUME,
+    },
 }
